@@ -430,7 +430,10 @@ class Run:
             kf = known_findings()[(self.pid, key)]
             print("KNOWN-FINDING: property=%s %s: %s" % (self.pid, kf["site"], kf["what"]))
         if self.broken and not self.violations:
-            self.search()
+            try:
+                self.search()
+            except Exception as e:  # a crashing search must not hide the broken obligations
+                self.broken.append(("search", "search for a failing input crashed: %r\n%s" % (e, traceback.format_exc()[-1200:])))
         exit_code = 0
         if self.violations:
             exit_code = 1
